@@ -218,18 +218,26 @@ def thm_table():
         ensures(not U.is_compression_format(other), id="%r is not a compression format" % other)
 
 
-def _roundtrip(fmt, via_suffix):
-    @theorem(P, "roundtrip[%s,%s]" % (fmt, "suffix" if via_suffix else "fmt="))
+# File-name stems: the code looks at a name only through splitext / basename / endswith / lstrip('.') / '.'.join, so what
+# can matter is where dots sit and whether the stem ends in characters of a format name.  The round trip is proved per
+# stem for this family (names are NOT universally quantified: chunked strings have a fixed shape).
+STEMS = ["a.b.c.nc", "backup", "quiz", "wiki", "v1.", "gz", "x.zip", ".hidden", "b2", "archive.x", "z"]
+
+
+def _roundtrip(fmt, via_suffix, stem):
+    @theorem(P, "roundtrip[%s,%s,%s]" % (fmt, "suffix" if via_suffix else "fmt=", stem))
     def thm():
         disk = _new_disk(faults=False)
-        name = "/data/a.b.c.nc." + fmt if via_suffix else "/data/a.b.c.arch"
+        name = "/data/" + stem + "." + fmt if via_suffix else "/data/" + stem + ".arch"
         with (U.compress(name) if via_suffix else U.compress(name, fmt=fmt)) as tmp:
             ensures(tmp != name, id="the caller writes to a temporary file, not to the target")
             disk.files[tmp] = ("plain", "DATA")
         stored = disk.files.get(name)
         ensures(stored is not None and stored[0] == fmt, id="the stored file is an archive of format " + fmt)
-        ensures(stored[1] == ({"a.b.c.nc": "DATA"} if fmt == "zip" and via_suffix else {"a.b.c.arch": "DATA"} if fmt == "zip" else "DATA"),
-                id="... holding the caller's bytes")
+        if fmt != "zip":
+            ensures(stored[1] == "DATA", id="... holding the caller's bytes")
+        else:
+            ensures(list(stored[1].values()) == ["DATA"], id="... holding the caller's bytes")
         ensures(disk.tempdirs == set() and sorted(disk.files) == [name], id="no temporary file or directory remains after compress")
         if via_suffix:
             with U.decompress(name) as plain:
@@ -241,8 +249,9 @@ def _roundtrip(fmt, via_suffix):
 
 
 for _f in FORMATS:
-    _roundtrip(_f, True)
-    _roundtrip(_f, False)
+    for _s in STEMS:
+        _roundtrip(_f, True, _s)
+    _roundtrip(_f, False, STEMS[0])
 
 
 @theorem(P, "passthrough")
@@ -329,7 +338,7 @@ def bounded_real(rng, tier):
     try:
         for fmt in FORMATS:
             for ci, data in enumerate(contents):
-                name = os.path.join(root, "a.b.%d.dat.%s" % (ci, fmt))
+                name = os.path.join(root, "%s.%d.%s.%s" % (STEMS[(ci + FORMATS.index(fmt)) % len(STEMS)], ci, STEMS[(3 * ci + FORMATS.index(fmt)) % len(STEMS)], fmt))
                 before = set(os.listdir(root))
                 with U.compress(name, tmpdir=root) as tmp:
                     with open(tmp, "wb") as f:
@@ -348,9 +357,12 @@ def bounded_real(rng, tier):
                     except Exception as exc:
                         ok = False
                 if ok:
-                    with U.decompress(name, tmpdir=root) as plain:
-                        with open(plain, "rb") as f:
-                            ok = f.read() == data
+                    try:
+                        with U.decompress(name, tmpdir=root) as plain:
+                            with open(plain, "rb") as f:
+                                ok = f.read() == data
+                    except Exception as exc:
+                        ok = False
                     ok = ok and set(os.listdir(root)) == before | {os.path.basename(name)}
                 if not ok:
                     failures.append({"format": fmt, "content": ci, "listing": sorted(os.listdir(root))})
